@@ -479,6 +479,12 @@ func conditions() []condition {
 	add("proc", "nil", nil)
 	add("proc", "ctx-cancelled", context.Canceled)
 	add("proc", "ctx-deadline", context.DeadlineExceeded)
+	// a cancellation / deadline that also carries a process condition stays what it is, whichever way round the two are chained
+	for _, cond := range []error{syscall.ESRCH, exec.ErrWaitDelay, exec.ErrNotFound, process.ErrorNotPermitted, process.ErrorProcessNotRunning, errors.New("signal: killed"), errors.New("not implemented yet")} {
+		add("proc", "ctx-cancelled", fmt.Errorf("command interrupted: %w: %w", context.Canceled, cond))
+		add("proc", "ctx-cancelled", fmt.Errorf("command failed: %w (%w)", cond, context.Canceled))
+		add("proc", "ctx-deadline", errors.Join(cond, context.DeadlineExceeded))
+	}
 	add("proc", "no-such-process", syscall.ESRCH)
 	add("proc", "wait-delay", exec.ErrWaitDelay)
 	add("proc", "executable-missing", exec.ErrNotFound)
